@@ -159,7 +159,59 @@ fn module(md: &str, flip: bool, body: &str) -> String {
     )
 }
 
+fn clause(md: &str) -> &'static str {
+    match md {
+        "EXPLICIT" => "EXPLICIT TAGS ",
+        "IMPLICIT" => "IMPLICIT TAGS ",
+        "AUTOMATIC" => "AUTOMATIC TAGS ",
+        _ => "",
+    }
+}
+
+/// a cross-module point: the tag is written in module Xa (default md) and reaches module Xb (default md2) through
+/// COMPONENTS OF an imported type or through an instance of an imported parameterized type
+fn run_cross(k: usize, c: &Value) -> Value {
+    let (md, md2, kw) = (c["md"].as_str().unwrap(), c["md2"].as_str().unwrap(), c["kw"].as_str().unwrap());
+    let tag = tag_text("context", tag_number(k), kw);
+    let param = c["via"] == "param";
+    let x = if c["kind"] == "refseq" { format!("RefSeq{k}") } else { "INTEGER".to_string() };
+    let a = format!("Xa{k}x DEFINITIONS {}::= BEGIN\nRefSeq{k} ::= SEQUENCE {{ x INTEGER }}\nBase{k} ::= SEQUENCE {{ f {tag} {x}, g NULL }}\nWrap{k} {{T}} ::= SEQUENCE {{ f {tag} T, g NULL }}\nEND\n", clause(md));
+    let user = if param { format!("Tg{k} ::= Wrap{k} {{ {x} }}") } else { format!("Tg{k} ::= SEQUENCE {{ h BOOLEAN, COMPONENTS OF Base{k} }}") };
+    let b = format!("Xb{k}x DEFINITIONS {}::= BEGIN\nIMPORTS Base{k}, Wrap{k}{{}}, RefSeq{k} FROM Xa{k}x;\n{user}\nEND\n", clause(md2));
+    let (o, _) = run::compile_rasn(&[a.clone(), b.clone()], run::default_config());
+    let mut ev = c.clone();
+    ev["ev"] = json!("tag");
+    ev["k"] = json!(k);
+    ev["num"] = json!(tag_number(k));
+    ev["asn"] = json!(format!("{a}{b}"));
+    ev["status"] = json!(o.status);
+    ev["detail"] = json!("");
+    ev["obs"] = json!({"present": false, "explicit": false, "cls": "", "num": -1});
+    ev["obs_automatic"] = json!(false);
+    if o.status != "ok" {
+        ev["detail"] = json!(format!("{}{}", o.error, o.panic_msg));
+        return ev;
+    }
+    if let Some(w) = o.warnings.iter().find(|w| w.contains(&format!("Tg{k}")) || w.contains(&format!("Base{k}")) || w.contains(&format!("Wrap{k}"))) {
+        ev["status"] = json!("warn");
+        ev["detail"] = json!(w);
+        return ev;
+    }
+    let krate = rsproj::project(&o.generated);
+    match krate.item(&format!("Tg{k}")).and_then(|it| it.fields.iter().find(|f| f.name == "f").map(|f| tag_json(&f.attrs))) {
+        Some(t) => ev["obs"] = t,
+        None => ev["status"] = json!("missing"),
+    }
+    ev
+}
+
 fn run_batch(base: usize, cases: &[Value], force_flip: Option<bool>) -> Vec<Value> {
+    if cases.iter().any(|c| c["t"] == "xtag") {
+        // cross-module points are compiled on their own; the others of the batch as usual
+        return cases.iter().enumerate().flat_map(|(i, c)| {
+            if c["t"] == "xtag" { vec![run_cross(base + i, c)] } else { run_batch(base + i, std::slice::from_ref(c), force_flip) }
+        }).collect();
+    }
     let texts: Vec<String> = cases.iter().enumerate().map(|(i, c)| render(base + i, c)).collect();
     let flip = force_flip.unwrap_or((base / cases.len().max(1)) % 2 == 1);
     let mut srcs = vec![];
